@@ -163,6 +163,6 @@ func (o *Once) Do(f func()) {
 
 // OnceFunc, OnceValue and OnceValues forward to the real implementations
 // (generic functions cannot be re-exported as values).
-func OnceFunc(f func()) func()                        { return sync.OnceFunc(f) }
-func OnceValue[T any](f func() T) func() T            { return sync.OnceValue(f) }
+func OnceFunc(f func()) func()                                 { return sync.OnceFunc(f) }
+func OnceValue[T any](f func() T) func() T                     { return sync.OnceValue(f) }
 func OnceValues[T1, T2 any](f func() (T1, T2)) func() (T1, T2) { return sync.OnceValues(f) }
